@@ -162,6 +162,8 @@ class P(Property):
         ps = '-'
         if fault == 'none' and rng.random() < 0.3:
             ps = str(rng.choice([0, 1, 100, rng.randint(0, max(1, min(budget, 20000)))]))
+            if total + int(ps) > 30 * swin:
+                swin = 1 << 22
         return ('qw role=%s kind=%s skip=%d win=%d cwin=%d swin=%d bufs=%s seed=%d ids=%d dbl=%s dblp=%s rd=%d ps=%s fault=%s'
                 % (role, kind, skip, win, cwin, swin, ','.join(bufs), rng.randint(0, 255), ids,
                    dbl, dblp, rd, ps, fault))
